@@ -24,6 +24,9 @@ func runC13(p *Prog, r *Report) {
 	if want("C13.2") {
 		ruleEntryGates(p, r, "C13.2")
 	}
+	if want("C13.9") {
+		ruleRestartSearch(p, r, "C13.9")
+	}
 	if want("C13.3") {
 		ruleShorteningGuards(p, r, "C13.3")
 	}
@@ -221,14 +224,14 @@ func ruleEntryGates(p *Prog, r *Report, rule string) {
 		if pred != nil {
 			instrs(pred, func(_ *ssa.BasicBlock, _ int, in ssa.Instruction) {
 				if ret, ok := in.(*ssa.Return); ok && len(ret.Results) == 1 {
-					if b, ok := ret.Results[0].(*ssa.BinOp); ok && b.Op == token.GTR && mConstInt(0)(b.Y) {
+					if b, ok := ret.Results[0].(*ssa.BinOp); ok && (b.Op == token.GTR || b.Op == token.GEQ) && mConstInt(0)(b.Y) {
 						okv = true
 					}
 				}
 			})
 		}
 		r.Site(1)
-		r.Check(okv, fnName(fn), "restart-predicate", "restart-point search finds the first restart key > target (then steps back one)", "predicate is not Compare(restartKey, key) > 0", p.Pos(fn.Pos()))
+		r.Check(okv, fnName(fn), "restart-predicate", "restart-point search finds the first restart key > (or >=) target, then steps back one: the scan starts at or before the first entry >= target", "predicate is not Compare(restartKey, key) > 0 / >= 0", p.Pos(fn.Pos()))
 	}
 }
 
@@ -517,5 +520,127 @@ func ruleRestartPoints(p *Prog, r *Report, rule string) {
 		r.Site(2)
 		r.Check(okLen, fnName(fn), "count-position", "the reader takes the restart count from the block's last 4 bytes", "different position", p.Pos(fn.Pos()))
 		r.Check(okOff, fnName(fn), "array-position", "restartsOffset = len(data) - (restartsLen+1)*4", "different expression", p.Pos(fn.Pos()))
+	}
+}
+
+// ruleRestartSearch: block.seek finds the restart interval by binary search over the restart
+// points; its predicate decodes the restart entry by hand. It must locate the key exactly as
+// block.entry does (key bytes start after the shared-length byte and BOTH length varints — the
+// value length varint is as long as the value requires) and compare it with the comparer for
+// "restart key > sought key".
+func ruleRestartSearch(p *Prog, r *Report, rule string) {
+	r.Begin(rule, "E-SIB", "restart-point search (block.seek): in every comparison of the search predicate the compared key is data[m : m+keyLen] with m = restart offset + 1 (shared = 0) + len(key-length varint) + len(value-length varint), both varint lengths taken from binary.Uvarint at their positions, keyLen from the first; the predicate is `restart key > sought key`; the result index is clamped to the first restart of the slice", 1)
+	defer r.End()
+	fn := resolveFn(p, r, "leveldb/table", "(*block).seek$1")
+	if fn == nil {
+		return
+	}
+	isUv := func(v ssa.Value, idx int) (*ssa.Call, bool) {
+		ex, ok := stripConv(v).(*ssa.Extract)
+		if !ok || ex.Index != idx {
+			return nil, false
+		}
+		c, ok := ex.Tuple.(*ssa.Call)
+		return c, ok && isCallTo(c, "encoding/binary.Uvarint")
+	}
+	// collect the additive terms of an int expression
+	var terms func(v ssa.Value, out *[]ssa.Value)
+	terms = func(v ssa.Value, out *[]ssa.Value) {
+		v = stripConv(v)
+		if b, ok := v.(*ssa.BinOp); ok && b.Op == token.ADD {
+			terms(b.X, out)
+			terms(b.Y, out)
+			return
+		}
+		*out = append(*out, v)
+	}
+	ncmp := 0
+	instrs(fn, func(_ *ssa.BasicBlock, _ int, in ssa.Instruction) {
+		c, ok := in.(*ssa.Call)
+		if !ok || !c.Call.IsInvoke() || c.Call.Method.Name() != "Compare" {
+			return
+		}
+		ncmp++
+		r.Site(1)
+		sl, ok := c.Call.Args[0].(*ssa.Slice)
+		if !ok || sl.Low == nil || sl.High == nil {
+			r.Fail(fnName(fn), "compared-key-shape", "the compared key is a sub-slice data[m:m+keyLen]", "first comparer operand is not a two-bound slice", p.Pos(c.Pos()), nil)
+			return
+		}
+		var lo, hi []ssa.Value
+		terms(sl.Low, &lo)
+		terms(sl.High, &hi)
+		var uvLens []*ssa.Call
+		one := false
+		for _, t := range lo {
+			if uc, ok := isUv(t, 1); ok {
+				uvLens = append(uvLens, uc)
+			}
+			if mConstInt(1)(t) {
+				one = true
+			}
+			if k, isC := constInt(t); isC && k > 1 {
+				uvLens = nil // a constant stands in for a varint length
+				one = false
+			}
+		}
+		distinct := len(uvLens) == 2 && uvLens[0] != uvLens[1]
+		// the second varint is decoded where the first ended
+		chained := false
+		if distinct {
+			for i := 0; i < 2; i++ {
+				a, b := uvLens[i], uvLens[1-i]
+				if s2, ok := b.Call.Args[0].(*ssa.Slice); ok && s2.Low != nil {
+					var ts []ssa.Value
+					terms(s2.Low, &ts)
+					for _, t := range ts {
+						if uc, ok := isUv(t, 1); ok && uc == a {
+							chained = true
+						}
+					}
+				}
+			}
+		}
+		// offset++ may be folded: accept the +1 either as a term here or inside the offset value
+		_ = one
+		keyLen := false
+		for _, t := range hi {
+			if uc, ok := isUv(t, 0); ok && distinct && (uc == uvLens[0] || uc == uvLens[1]) {
+				keyLen = true
+			}
+		}
+		r.Check(distinct && chained && keyLen, fnName(fn), "key-located-like-entry@"+branchLabel(c), "the compared key starts after both length varints (lengths from Uvarint) and is keyLen long", fmt.Sprintf("two varint lengths=%v chained=%v keyLen-from-first-varint=%v: a restart entry whose value length needs more than one byte is compared at the wrong offset; the search picks the wrong interval (present keys not found, Seek lands later)", distinct, chained, keyLen), p.Pos(c.Pos()))
+		// predicate relation
+		okRel := false
+		for _, ref := range *c.Referrers() {
+			// `> 0` and `>= 0` are both sound (the scan starts in an interval whose first key is <= the
+			// sought key and runs forward); `<`/`<=` are not
+			if b, ok := ref.(*ssa.BinOp); ok && (b.Op == token.GTR || b.Op == token.GEQ) && mConstInt(0)(b.Y) {
+				okRel = true
+			}
+			if b, ok := ref.(*ssa.BinOp); ok && (b.Op == token.LSS || b.Op == token.LEQ) && mConstInt(0)(b.X) {
+				okRel = true
+			}
+		}
+		r.Check(okRel && mParamOrFree("key")(c.Call.Args[1]), fnName(fn), "predicate-restart-key-greater@"+branchLabel(c), "the predicate is Compare(restart key, sought key) > 0 (or >= 0): monotone in the restart index, true for restart keys beyond the sought key", "another relation / operand", p.Pos(c.Pos()))
+	})
+	r.Check(ncmp >= 1, fnName(fn), "has-comparison", "the search predicate compares keys through the comparer", "no comparer call", p.Pos(fn.Pos()))
+}
+
+func mParamOrFree(name string) VMatch {
+	return func(v ssa.Value) bool {
+		v = stripConv(v)
+		if pa, ok := v.(*ssa.Parameter); ok {
+			return pa.Name() == name
+		}
+		if u, ok := v.(*ssa.UnOp); ok {
+			if fv, ok := u.X.(*ssa.FreeVar); ok {
+				return fv.Name() == name
+			}
+		}
+		if fv, ok := v.(*ssa.FreeVar); ok {
+			return fv.Name() == name
+		}
+		return false
 	}
 }
